@@ -1,9 +1,11 @@
 (* C29 - Files written to a cassette image read back intact.
    Only statements, `exact`, Print Assumptions and non-vacuity examples here.
    Tape = list of records of 256-byte blocks (model/Cassette.v); the framing decisions come from the
-   regenerated gen/Gen_cassette.v.  Bit and pulse layers are not modelled. *)
+   regenerated gen/Gen_cassette.v.  The bit layer of CAS images (leader, sync byte, MSB-first bytes,
+   CRC words, trailer) is model/CassetteBits.v; the pulse layer of WAV images is not modelled. *)
 From Coq Require Import ZArith List Bool.
-From PCB Require Import lib.PyInt gen.Gen_cassette model.Cassette proofs.Cassette_proofs.
+From PCB Require Import lib.PyInt gen.Gen_cassette model.Cassette model.CassetteBits
+  proofs.Cassette_proofs proofs.CassetteBits_proofs.
 Import ListNotations.
 Open Scope Z_scope.
 
@@ -74,9 +76,11 @@ Proof. exact not_found. Qed.
 Print Assumptions C29_not_found.
 
 (* PARTIAL: C29_search_isolation requires the files passed over to be `skippable` (passed_over includes
-   it): their data records must not start with A5 and must not be empty.  The statement without that
-   condition is false for the code as it is (the reader scans for the next record starting with A5
-   instead of consuming the skipped file's data): known findings K29a / K29b. *)
+   it).  B/P/M files always are (whatever their contents, also empty: their data record is read while
+   skipping, fix D29c).  A text/data file is not when its length is 164 (mod 255): its last count byte is
+   then A5 and the scan for the next header takes that record for a header.  The statement without the
+   condition is false for the code as it is: known finding K29a (count bytes cannot be told from a header,
+   and images written before fix D10 may lack the final counted record, so the scan cannot be replaced). *)
 Definition C29_search_statement : Prop := forall T cur nreq treq fs1 f rest last,
   Forall (fun g => file_ok g /\ matches nreq treq g = false) fs1 -> file_ok f -> matches nreq treq f = true ->
   last_ok last -> illegal_name nreq = false ->
@@ -88,7 +92,7 @@ Definition C29_search_statement : Prop := forall T cur nreq treq fs1 f rest last
 
 Theorem C29_search_statement_refuted : ~ C29_search_statement.
 Proof.
-  intros H. destruct witness_files_ok as (H1 & H2 & _ & H4 & _ & H6). apply fake_header_shadows.
+  intros H. destruct witness_files_ok as (H1 & H2 & H4 & H6). apply fake_header_shadows.
   rewrite (write_tape_records [fake_file; real_file])
     by (constructor; [exact H1|constructor; [exact H2|constructor]]).
   refine (eq_trans _ (H _ 0 [66] [] [fake_file] real_file [] (0, 0, 0) _ H2 H6 _ eq_refl)).
@@ -98,10 +102,14 @@ Proof.
 Qed.
 Print Assumptions C29_search_statement_refuted.
 
-Theorem C29_empty_record_breaks_search :
-  snd (open_read_all (rst0 (write_tape [empty_file; real_file])) [66] []) = OErr 57.
-Proof. exact empty_record_breaks_search. Qed.
-Print Assumptions C29_empty_record_breaks_search.
+(* B/P/M files that are empty or start like a header are passed over like any other *)
+Example C29_binary_always_skippable :
+  Forall (passed_over [66] []) [empty_file; a5_file] /\
+  snd (open_read_all (rst0 (write_tape [empty_file; a5_file; real_file])) [66] []) = OFile (view (0, 0, 19) real_file).
+Proof.
+  split; [repeat (constructor; [apply passed_overb_ok; vm_compute; reflexivity|]); constructor|].
+  vm_compute. reflexivity.
+Qed.
 
 (* non-vacuity: a tape with a 254-byte data file (the D10 witness), a 255-byte ASCII file written in
    pieces, a 513-byte memory image and an empty data file satisfies the hypotheses, is read back, and a
@@ -124,4 +132,35 @@ Proof.
   split; [vm_compute; reflexivity|]. split; [vm_compute; reflexivity|].
   split; [cbn [firstn ex_files]; repeat (constructor; [apply passed_overb_ok; vm_compute; reflexivity|]); constructor|].
   vm_compute. reflexivity.
+Qed.
+
+(* ---- bit layer of CAS images (model/CassetteBits.v) ----
+   Reading a record of k 256-byte blocks from the bits written for it (leader of 2048 one bits, sync bit and
+   byte, blocks with their CRC words, trailer) returns the record and stops exactly at the next record; the
+   CRC is used only as a function whose value fits the two check bytes. *)
+Theorem C29_bits_record : forall r s, Forall block_ok r ->
+  read_record (length r) (enc_record r ++ s) = BOk r s.
+Proof. exact read_record_enc. Qed.
+Print Assumptions C29_bits_record.
+
+(* for every tape of acceptable files with byte contents, the bit stream written reads back as exactly the
+   records of the record-level model (each record read with its own block count, as the record level does) *)
+Theorem C29_bits_tape : forall fs, Forall file_ok fs -> Forall file_bytes_ok fs ->
+  read_records (map (@length block) (write_tape fs)) (enc_tape (write_tape fs)) = BOk (write_tape fs) [].
+Proof. exact bits_tape_roundtrip. Qed.
+Print Assumptions C29_bits_tape.
+
+(* a block whose stored check word differs from the CRC of its data is rejected (Device I/O error) *)
+Theorem C29_bits_bad_crc_rejected : forall b c s, block_ok b -> 0 <= c < 65536 -> c <> crc b ->
+  read_block (enc_bytes b ++ enc_byte (c / 256) ++ enc_byte (c mod 256) ++ s) = BCrc.
+Proof. exact read_block_bad_crc. Qed.
+Print Assumptions C29_bits_bad_crc_rejected.
+
+Example C29_bits_nonvacuous :
+  Forall file_bytes_ok ex_files /\
+  map (@length block) (write_tape ex_files) = [1; 1; 1; 1; 1; 1; 3; 1; 1]%nat /\
+  zlen (enc_tape (write_tape ex_files)) = 41496.
+Proof.
+  split; [repeat (constructor; [split; apply bytesb_ok; vm_compute; reflexivity|]); constructor|].
+  split; vm_compute; reflexivity.
 Qed.
